@@ -26,9 +26,13 @@ type fakeOp struct {
 	mu        sync.Mutex
 	cancelled bool
 	onCancel  func()
+	emit      func(Ev)
 }
 
 func (o *fakeOp) Cancel() {
+	if o.emit != nil {
+		o.emit(Ev{"ev": "Cancel"})
+	}
 	o.mu.Lock()
 	o.cancelled = true
 	f := o.onCancel
@@ -47,7 +51,7 @@ func (a *AsyncRun) Run() []TraceLine {
 	defer cancel()
 	opm := couchbase.NewAsyncOp(ctx)
 	ch := make(chan error, 1)
-	op := &fakeOp{}
+	op := &fakeOp{emit: a.s.Emit}
 	var cbFlag int32 // the callback runs exactly once: claimed by whoever gets here first (never wait for the other)
 	claim := func() bool { return atomic.CompareAndSwapInt32(&cbFlag, 0, 1) }
 	var cbErr error
